@@ -91,7 +91,9 @@ var (
 func scratchBase() string {
 	scratchOnce.Do(func() {
 		base := os.Getenv("VERIF_SCRATCH")
-		if st, err := os.Stat("/dev/shm"); err == nil && st.IsDir() {
+		if shm := os.Getenv("VERIF_SHM"); shm != "" {
+			base = shm // a directory of the caller in /dev/shm, removed by the caller
+		} else if st, err := os.Stat("/dev/shm"); err == nil && st.IsDir() {
 			base = "/dev/shm"
 		}
 		if base == "" {
